@@ -425,7 +425,7 @@ func blobHook(op, s string) error {
 		return fmt.Errorf("A:error")
 	case op == "unmarshal" && s == "BLOB_PANIC":
 		panic("A:panic")
-	case op == "marshal" && strings.HasPrefix(s, "MARSHAL_PANIC"):
+	case (op == "marshal" || op == "marshalfn") && strings.HasPrefix(s, "MARSHAL_PANIC"):
 		panic("M:panic")
 	}
 	return nil
